@@ -231,6 +231,10 @@ mod sync;
 mod util;
 
 pub use conn::{LdapConnAsync, LdapConnSettings, StdStream};
+#[cfg(ldap3_verif)]
+pub use conn::VerifIo;
+#[cfg(ldap3_verif)]
+pub use protocol::verif_decode;
 pub use filter::parse as parse_filter;
 pub use ldap::{Ldap, Mod};
 pub use result::{LdapError, LdapResult, SearchResult};
